@@ -419,6 +419,16 @@ func batcherMonitor(c BatcherCase, evs []Ev, big, invalid int) []core.Violation 
 				if c.Routing == "partition" && e.Worker != quickHash(e.PKey, c.Workers) {
 					add("C05", "partition-routing-wrong-worker", fmt.Sprintf("batch of key %q went to worker %d, crc32 mod %d = %d", e.PKey, e.Worker, c.Workers, quickHash(e.PKey, c.Workers)))
 				}
+				// ... and the key that decides is the partition key of the RECORDS (what the partitioner
+				// stamped on them), not whatever the batch says about itself
+				if c.Routing == "partition" {
+					for _, it := range e.Items {
+						if m, ok := fed[it.ID]; ok && e.Worker != quickHash(m.PKey, c.Workers) {
+							add("C05", "partition-routing-wrong-worker", fmt.Sprintf("record %d has partition key %q (worker %d of %d) but its batch went to worker %d", it.ID, m.PKey, quickHash(m.PKey, c.Workers), c.Workers, e.Worker))
+							break
+						}
+					}
+				}
 				if len(e.Items) == 0 {
 					add("C04", "empty-batch-dispatched", "an empty batch was handed to a worker")
 				}
@@ -509,11 +519,13 @@ func pkeyFor(method string, buckets int, table, txn string) string {
 
 func genBatcherCase(rng *rand.Rand) BatcherCase {
 	c := BatcherCase{Mode: "gen"}
-	switch rng.Intn(6) {
+	switch rng.Intn(7) {
 	case 0:
 		c.Kind = Kind{Generic: 1}
 	case 1, 2:
 		c.Kind = Kind{Generic: 2 + rng.Intn(4)}
+	case 6:
+		c.Kind = Kind{Generic: 1 + rng.Intn(4), Kafka: []string{"random", "batch", "transaction", "transaction-constant", "tablename"}[rng.Intn(5)]}
 	case 3:
 		c.Kind = Kind{Kinesis: "walstart"}
 	default:
@@ -656,7 +668,9 @@ func init() {
 			core.Bump(rep, "routing:"+c.Routing)
 			core.Bump(rep, "method:"+c.Method)
 			core.Bump(rep, fmt.Sprintf("workers:%d", c.Workers))
-			if c.Kind.Generic > 0 {
+			if c.Kind.Kafka != "" {
+				core.Bump(rep, "kind:kafka-"+c.Kind.Kafka)
+			} else if c.Kind.Generic > 0 {
 				core.Bump(rep, fmt.Sprintf("kind:generic-%d", c.Kind.Generic))
 			} else {
 				core.Bump(rep, "kind:kinesis-"+c.Kind.Kinesis)
